@@ -46,8 +46,10 @@ MCFail == /\ pos > 0 /\ step = "do"
                /\ WriteFailed(Cur.path, file)
                /\ wlog' = Append(wlog, [path |-> Cur.path, file |-> file, v |-> 0, c |-> Cur, kind |-> "failed", swp |-> swp])
           /\ UNCHANGED nticks
+MCVanish == /\ pos > 0 /\ \E k \in DOMAIN cgs : cgs[k].path \notin gone /\ Vanish(cgs[k].path)
+            /\ UNCHANGED mcv
 MCSwp == (\E v \in {0, 30, 60} : Swappiness(v)) /\ UNCHANGED mcv
-MCNext == MCStart \/ MCTickBegin \/ MCWrite \/ MCFail \/ MCSwp \/ (SSilent /\ UNCHANGED mcv) \/ (TickEnd /\ UNCHANGED mcv)
+MCNext == MCStart \/ MCTickBegin \/ MCVanish \/ MCWrite \/ MCFail \/ MCSwp \/ (SSilent /\ UNCHANGED mcv) \/ (TickEnd /\ UNCHANGED mcv)
 MCSpec == MCInit /\ [][MCNext]_<<sv, mcv>>
 
 \* ---------------------------------------------------------------- the statement, declaratively
@@ -72,8 +74,8 @@ BackoffGuards ==
 PokeReset ==
   (pos = 0 /\ wlog # <<>>) =>
     \A i \in DOMAIN wlog : (wlog[i].kind = "reclaim" /\ wlog[i].file # "memory.reclaim") =>
-        \* (unless the kernel refused the reset write itself)
-        (i < Len(wlog) /\ wlog[i + 1].path = wlog[i].path /\
+        \* (unless the kernel refused the reset write itself, or the cgroup was removed in between)
+        (wlog[i].path \in gone) \/ (i < Len(wlog) /\ wlog[i + 1].path = wlog[i].path /\
            (wlog[i + 1].kind = "failed" \/ (wlog[i + 1].kind = "resetmax" /\ wlog[i + 1].v = Inf)))
 
 Wit ==
@@ -82,6 +84,7 @@ Wit ==
   (IF \E i \in DOMAIN wlog : wlog[i].kind = "adjust" /\ FloorD(wlog[i].c) > CeilD(wlog[i].c, FALSE) THEN {"FloorAboveCeiling"} ELSE {}) \cup
   (IF \E i \in DOMAIN wlog : wlog[i].kind = "reclaim" /\ wlog[i].file = "memory.reclaim" THEN {"Reclaimed"} ELSE {}) \cup
   (IF \E i \in DOMAIN wlog : wlog[i].kind = "resetmax" THEN {"PokedAndReset"} ELSE {}) \cup
+  (IF gone # {} /\ pos > 0 /\ Cur.path \in gone /\ step = "do" /\ pend # <<>> THEN {"VanishedBeforeItsWrite"} ELSE {}) \cup
   (IF swp = "lowered" THEN {"SwappinessLowered"} ELSE {}) \cup
   (IF \E i \in DOMAIN wlog : wlog[i].kind = "track" /\ wlog[i].c.id = 3 THEN {"RecreatedIsTrackedAfresh"} ELSE {})
 WitnessInit == TLCSet(2, {})
